@@ -57,8 +57,19 @@ theorem C02_gen_start_state_table :
     Generated.C02.startStateProbe = some (startStateDomain.map fun i => (i, startStateModel i)) := by
   decide +kernel
 
+/-- **websocket/ws.go `NewSession`, what a WebSocket session starts with**: for a `net.Conn`, a plain
+`io.ReadWriter` and a client `*websocket.Conn` (real opening handshake) for every scheme of its
+origin URL (http, https, ws, wss) × location URL (ws, wss), the `SessionState` of the session the
+real `websocket.NewSession` creates is the model's `init`: `Secure` exactly when the connection is
+a `*websocket.Conn` whose LOCATION is a `wss:` URL — whatever the origin. -/
+theorem C02_gen_ws_start_state_table :
+    Generated.C02.wsStartProbe = some (wsStartDomain.map fun i => (i, wsStartModel i)) := by
+  decide +kernel
+
 /-- **negotiator.go + features.go, the first features list**: for every tee variant (off, TeeIn,
-TeeOut, both), every clear connection kind, the first list empty / naming only an unknown
+TeeOut, both), every clear connection kind — TCP framing and WebSocket framing (raw carriers
+and client `*websocket.Conn`s with an http:, https:, wss: origin and a ws: location, created by
+`websocket.NewSession` / `websocket.Negotiator`) —, the first list empty / naming only an unknown
 feature / STARTTLS optional / STARTTLS required, and a peer that then stays silent or says
 `<proceed/>` and continues inside TLS, the observable trace and the outcome of the real
 `NewSession` are the model's `run` (with the three features.go behaviours C02 does not constrain
@@ -174,15 +185,61 @@ a `*tls.Conn` — a TLS layer is in place from the start, and `Secure` is set by
 when it is a `*tls.Conn`. -/
 theorem C02_starts_secure_only_on_tls (env : Env) (st0 : Mask) (i : Input) (hs : has st0 Secure = false) :
     (init env st0 i).tls = env.conn.startsSecure ∧
-    (has (init env st0 i).state Secure = true ↔ ∃ n, env.conn = .tlsConn n) := by
+    (has (init env st0 i).state Secure = true ↔
+      (∃ n, env.conn = .tlsConn n) ∨ ∃ c o, env.conn = .wsConn c o .wss) := by
   refine ⟨rfl, ?_⟩
   cases hc : env.conn with
   | tlsConn n =>
     simp only [init, hc, ConnKind.startsSecure, if_true]
-    exact ⟨fun _ => ⟨n, rfl⟩, fun _ => has_or_self st0 Secure⟩
+    exact ⟨fun _ => .inl ⟨n, rfl⟩, fun _ => has_or_self st0 Secure⟩
   | plainRW => simp [init, hc, ConnKind.startsSecure, hs]
   | netConn => simp [init, hc, ConnKind.startsSecure, hs]
   | stateMethod => simp [init, hc, ConnKind.startsSecure, hs]
+  | wsRaw n => simp [init, hc, ConnKind.startsSecure, hs]
+  | wsConn c o l =>
+    cases l
+    · simp [init, hc, ConnKind.startsSecure, hs]
+    · simp [init, hc, ConnKind.startsSecure, hs]
+    · simp [init, hc, ConnKind.startsSecure, hs]
+    · simp only [init, hc, ConnKind.startsSecure, beq_self_eq_true, if_true]
+      exact ⟨fun _ => .inr ⟨c, o, rfl⟩, fun _ => has_or_self st0 Secure⟩
+
+/-- **A session starts `Secure` only over a transport that is TLS.**  `transportTLS`: a `*tls.Conn`,
+or a `*websocket.Conn` whose location is a `wss:` URL (RFC 6455: that scheme is WebSocket over TLS;
+the origin URL, the side of the handshake and the framing say nothing about the transport).  So the
+premise "on a connection that is not yet secure" of every other theorem (`startsSecure = false`)
+holds on every connection that really is clear text. -/
+theorem C02_starts_secure_implies_transport_tls (c : ConnKind) (h : c.startsSecure = true) :
+    c.transportTLS = true := by
+  cases c <;> simp_all [ConnKind.startsSecure, ConnKind.transportTLS]
+
+/-- … and the converse on a `*tls.Conn` / `*websocket.Conn`: a connection of these two types that
+runs over TLS is recognised (no STARTTLS inside TLS). -/
+theorem C02_transport_tls_starts_secure (c : ConnKind) (h : c.transportTLS = true) :
+    c.startsSecure = true := by
+  cases c <;> simp_all [ConnKind.startsSecure, ConnKind.transportTLS]
+
+/-- the origin of a WebSocket connection and the side of its handshake do not matter -/
+theorem C02_ws_origin_irrelevant (cfg : Cfg) (env : Env) (c c' : Bool) (o o' l : Scheme) (st0 : Mask)
+    (i : Input) (fuel : Nat) :
+    run cfg { env with conn := .wsConn c o l } st0 i fuel = run cfg { env with conn := .wsConn c' o' l } st0 i fuel := by
+  cases l <;> rfl
+
+/-- **The WebSocket framing changes nothing at the level of units.**  On a clear-text carrier a
+session with the WebSocket framing (`websocket.Negotiator`: the same negotiator with `<open/>`
+headers, every configured feature — STARTTLS included — handed to `negotiateFeatures`) runs exactly
+as on a `net.Conn` with the TCP framing: same writes, same layer switch, same outcome.  (A model
+decision, tied to the code by the first-list table over both framings and by the differential run
+over the framing dimension; together with `C02_no_cleartext` … it says that a `ws:` connection gets
+the full RFC 7590 protection.) -/
+theorem C02_ws_framing_agrees (cfg : Cfg) (env : Env) (st0 : Mask) (i : Input) (fuel : Nat)
+    (k : ConnKind) (hw : k.wsFraming = true) (hc : k.transportTLS = false) :
+    run cfg { env with conn := k } st0 i fuel = run cfg { env with conn := .netConn } st0 i fuel := by
+  cases k with
+  | wsRaw n => rfl
+  | wsConn c o l => cases l <;> first | rfl | simp [ConnKind.transportTLS] at hc
+  | _ => simp [ConnKind.wsFraming] at hw
+
 
 /-- a clear-text connection is a clear-text connection, with or without a `ConnectionState()`
 method, `net.Conn` or not: the runs are identical -/
@@ -614,6 +671,18 @@ example :
 example :
     (run cfg1 ⟨0, 1, none, .plainRW⟩ 0 ⟨[[.hdr true, .list [⟨0, false, true⟩]], [.failure]], [], [(0, ⟨0, false, false⟩)]⟩ 10).2
       = .stop (.err .refused) := by
+  decide +kernel
+
+/-- a stream error that declares the stream namespace itself ends the negotiation wherever it
+arrives — also in place of the header, in both framings -/
+example : (run cfg1 ⟨0, 0, none, .wsRaw true⟩ 0 ⟨[[.streamErrD]], [], []⟩ 10).2 = .stop (.err .streamerr) ∧
+    (run cfg1 ⟨0, 0, none, .netConn⟩ 0 ⟨[[.streamErr]], [], []⟩ 10).2 = .stop (.err .proto) := by
+  decide +kernel
+
+/-- non-vacuity: an empty first list on a clear-text `*websocket.Conn` with an https origin — the
+STARTTLS request is made, nothing else is written in clear, no session without the layer -/
+example : (run cfg1 ⟨0, 0, none, .wsConn true .https .ws⟩ 0 ⟨[[.hdr true, .list []]], [], [(0, ⟨0, false, false⟩)]⟩ 10) =
+    ([.wHdr false, .deliver true false, .deliver true false, .wStartTLS false], .stop (.err .read)) := by
   decide +kernel
 
 end XmppModel.Props.C02
